@@ -8,8 +8,10 @@ open Sexp
 
 namespace Codec
 
+/-- an explicit span at the macro call site (`0..0` outside a proc macro) carries no position
+    and is observed like an absent one -/
 def spanToSexp : Option Span → Sexp
-  | some s => tagged "sp" [nat s.lo, nat s.hi]
+  | some s => if s.lo == 0 && s.hi == 0 then atom "none" else tagged "sp" [nat s.lo, nat s.hi]
   | none => atom "none"
 
 def spanOf? : Sexp → Option (Option Span)
